@@ -196,6 +196,7 @@ class Report:
         self.exhaustive: bool | None = None
         self.max_violation_files = 25
         self._kf = load_known_findings()
+        self.classifier = None
 
     # -- coverage
     def add_tlc(self, st: TlcStats, label: str | None = None) -> None:
@@ -219,6 +220,11 @@ class Report:
         n = len(self.violations)
         rec = {"property": self.prop, "summary": summary, **case}
         self.violations.append({"summary": summary})
+        if os.environ.get("VERIF_DUMP_ALL"):
+            d = OUT / "replays" / self.prop
+            d.mkdir(parents=True, exist_ok=True)
+            with (d / "all.ndjson").open("a") as fh:
+                fh.write(json.dumps(rec, default=str) + "\n")
         if n < self.max_violation_files:
             d = OUT / "replays" / self.prop
             d.mkdir(parents=True, exist_ok=True)
